@@ -27,6 +27,7 @@
 //     at the same index, and line/column relative to where the parse stream started).
 // (b) engine E straight-line pass (C12_straight.cpp): read everything, rewind to everything; all byte values.
 // (c) fault enumeration: C12_fault.cpp.   (d) error texts: C12_errtext.cpp.
+// (e) std stream handed over in a non-good state / retry after a failure, every reading entry point: C12_state.cpp.
 #include "C12_common.hpp"
 
 #include <hist.hpp>
@@ -267,5 +268,6 @@ int main(int argc, char **argv)
   c12::register_errtext();
   c12::register_bytes();
   c12::register_long();
+  c12::register_state();
   return vrt::run(argc, argv);
 }
